@@ -215,12 +215,15 @@ func (in *Interp) load(fr *frame, p Value, t types.Type) Value {
 		if x == nil {
 			in.nilDeref(fr)
 		}
+		in.raceAccess(fr, x, false)
 		return copyVal(in.reinterpret(fr, *x, t))
 	case ElemPtr:
+		in.raceAccess(fr, &x.arr.elems[x.idx], false)
 		return x.arr.elems[x.idx]
 	case SymElemPtr:
 		return in.symLoad(x)
 	case ImgPtr:
+		in.imgRace(fr, x.addr, false)
 		return in.imgLoad(x.addr, 1)
 	case CastPtr:
 		return in.castLoad(fr, x, t)
@@ -236,12 +239,15 @@ func (in *Interp) store(fr *frame, p Value, v Value, t types.Type) {
 		if x == nil {
 			in.nilDeref(fr)
 		}
+		in.raceAccess(fr, x, true)
 		in.storeInto(x, v)
 	case ElemPtr:
+		in.raceAccess(fr, &x.arr.elems[x.idx], true)
 		in.setCell(&x.arr.elems[x.idx], v)
 	case SymElemPtr:
 		in.symStore(x, v.(*Term))
 	case ImgPtr:
+		in.imgRace(fr, x.addr, true)
 		in.imgStore(x.addr, v.(*Term))
 	case CastPtr:
 		in.castStore(fr, x, v, t)
@@ -818,7 +824,7 @@ func (in *Interp) interpretable(fn *ssa.Function) bool {
 var allowedStd = map[string]bool{
 	"errors": true, "encoding/binary": true, "bytes": true, "sort": true, "math/bits": true,
 	"unicode/utf8": true, "internal/itoa": true, "encoding/hex": true, "container/list": true,
-	"internal/byteorder": true, "slices": true, "cmp": true,
+	"internal/byteorder": true, "slices": true, "cmp": true, "debug/gosym": true,
 }
 
 func (in *Interp) pkgAllowed(path string) bool {
@@ -1573,6 +1579,7 @@ func (in *Interp) concretize(fr *frame, idx *Term, n int) int {
 
 func (in *Interp) sliceGet(fr *frame, s Slice, i int) Value {
 	if s.img {
+		in.imgRace(fr, s.addr, false)
 		return in.imgLoad(Add(s.addr, BV(64, uint64(i))), 1)
 	}
 	return s.arr.elems[s.off+i]
@@ -1580,6 +1587,7 @@ func (in *Interp) sliceGet(fr *frame, s Slice, i int) Value {
 
 func (in *Interp) sliceSet(fr *frame, s Slice, i int, v Value) {
 	if s.img {
+		in.imgRace(fr, s.addr, true)
 		in.imgStore(Add(s.addr, BV(64, uint64(i))), v.(*Term))
 		return
 	}
@@ -1685,6 +1693,7 @@ func (in *Interp) mapFind(fr *frame, m *MapV, k Value) int {
 }
 
 func (in *Interp) mapSet(fr *frame, m *MapV, k, v Value) {
+	in.raceAccess(fr, &m.rc, true)
 	i := in.mapFind(fr, m, k)
 	if i >= 0 {
 		in.setCell(&m.vals[i], v)
@@ -1702,6 +1711,7 @@ func (in *Interp) mapSet(fr *frame, m *MapV, k, v Value) {
 }
 
 func (in *Interp) mapDelete(fr *frame, m *MapV, k Value) {
+	in.raceAccess(fr, &m.rc, true)
 	i := in.mapFind(fr, m, k)
 	if i < 0 {
 		return
@@ -1736,6 +1746,9 @@ func (in *Interp) lookup(fr *frame, x *ssa.Lookup) Value {
 		return BV(8, uint64(s[ci]))
 	}
 	m := base.(*MapV)
+	if m != nil {
+		in.raceAccess(fr, &m.rc, false)
+	}
 	vt := x.X.Type().Underlying().(*types.Map).Elem()
 	i := in.mapFind(fr, m, fr.get(x.Index))
 	var v Value
